@@ -10,7 +10,7 @@ FUNS = ["g", "h"]
 PARAMS = ["p", "q"]
 
 PRE = '''function E(e){ return e instanceof ReferenceError ? 9998 : e instanceof TypeError ? 9999 : e; }
-function L(v){ if (v instanceof ReferenceError) return 9998; if (v instanceof TypeError) return 9999; switch (typeof v) { case 'number': return v !== v ? -999 : v; case 'boolean': return 2000 + (v ? 1 : 0); case 'undefined': return -1000; case 'function': return -1001; default: return -1002; } }
+function L(v){ if (v instanceof ReferenceError) return 9998; if (v instanceof TypeError) return 9999; switch (typeof v) { case 'number': return v !== v ? -999 : v; case 'boolean': return 2000 + (v ? 1 : 0); case 'undefined': return -1000; case 'function': return -1001; case 'object': return -1003; default: return -1002; } }
 function LOG(v){ log(L(v)); return v; }
 function K(v){ return v; }
 function TY(s){ return ({number: 1, undefined: 2, "function": 3, boolean: 4, string: 5, object: 6})[s]; }
@@ -51,8 +51,19 @@ class Gen:
         if fs.get("argsok"):
             ch += ["arglen", "argget", "argget", "argset"]
         if d > 0:
-            ch += ["fn", "fn", "call", "call", "call", "add", "lt", "seq", "logassign", "incdec", "and", "or", "nullish", "cond", "sub"]
+            ch += ["fn", "fn", "call", "call", "call", "add", "lt", "seq", "logassign", "incdec", "and", "or", "nullish", "cond", "sub",
+                   "objlit", "objlit", "mget", "mget", "passign"]
         c = r.choice(ch)
+        if c == "objlit":
+            return self.objlit(d - 1, fs)
+        if c == "mget":
+            base = self.objlit(d - 1, fs) if r.random() < 0.4 else N("ref", x=self.anyname(fs))
+            return N("mget", x=r.choice(["a", "b"]), k=[base])
+        if c == "passign":
+            tg = [t for t in [self.anyname(fs), self.anyname(fs)] if t not in fs["loopvars"]]
+            if not tg:
+                return N("num", n=1)
+            return N("passign", pat=self.pat("opat", list(dict.fromkeys(tg)), d - 1, fs), k=[self.objlit(d - 1, fs) if r.random() < 0.6 else self.expr(d - 1, fs)])
         if c == "logassign":
             x = self.anyname(fs)
             if x in fs["loopvars"]:
@@ -97,6 +108,30 @@ class Gen:
             return N(c, k=[self.expr(d - 1, fs), self.expr(d - 1, fs)])
         return N("seq", k=[self.expr(d - 1, fs), self.expr(d - 1, fs)])
 
+    def objlit(self, d, fs):
+        r = self.r
+        props = []
+        for key in r.sample(["a", "b"], r.randint(1, 2)):
+            if r.random() < 0.3:
+                g = N("fn", x="", kind="func", p=[], d=[], pp=[], s=0,
+                      k=[N("return", k=[N("log", k=[self.expr(max(d, 0), fs)])])] if r.random() < 0.7 else self.stmts(max(d, 0), dict(
+                          declared=set(), params=[], loopvars=set(), incatch=False, top=True, outer=fs["declared"] | fs.get("outer", set()),
+                          argsok=True, revar=set(), inited=list(fs.get("inited") or []), fnames=list(fs.get("fnames") or [])), top=True, maxn=2))
+                props.append(N("prop", x=key, kind="get", k=[g]))
+            else:
+                props.append(N("prop", x=key, kind="data", k=[self.expr(d, fs)]))
+        return N("objlit", k=props)
+
+    def pat(self, kind, targets, d, fs):
+        """a pattern binding / assigning the given target names"""
+        r = self.r
+        els = []
+        keys = r.sample(["a", "b"], 2)
+        for i, t in enumerate(targets[:2]):
+            dflt = [self.expr(max(d, 0), fs)] if r.random() < 0.5 else []
+            els.append(N("pel", x=t, key=keys[i], n=i + 1, k=dflt))
+        return N(kind, k=els)
+
     def fn(self, d, fs, decl_name=None):
         r = self.r
         kind = "func" if decl_name else r.choice(["arrow", "func", "named"])
@@ -105,16 +140,41 @@ class Gen:
         inner = dict(declared=set(params), params=params, loopvars=set(), incatch=False, top=True, outer=fs["declared"] | fs.get("outer", set()),
                      argsok=(kind != "arrow") or fs.get("argsok", False), revar=set(params),
                      inited=list(fs.get("inited") or []) + list(params), fnames=list(fs.get("fnames") or []))
+        if kind == "named":
+            # the function's own name: an immutable binding in the scope around the parameters, assignments to it are
+            # ignored in sloppy code and a TypeError in strict code (wherever the assigning code is nested)
+            inner["inited"].append(name)
+            inner["outer"] = inner["outer"] | {name}
+            inner["ownnames"] = list(fs.get("ownnames") or []) + [name]
+        elif fs.get("ownnames"):
+            inner["ownnames"] = list(fs["ownnames"])
         defaults = [N("none") for _ in params]
-        if params and r.random() < 0.35:
+        pp = [N("none") for _ in params]
+        if r.random() < 0.2:
+            # one object-pattern parameter binding the names p / q (a non-simple parameter list)
+            tg = r.sample(PARAMS, r.randint(1, 2))
+            inner["declared"] = set(tg)
+            inner["inited"] = list(fs.get("inited") or []) + tg
+            inner["revar"] = set(tg)
+            inner["params"] = []
+            pfs = dict(inner, declared=set(tg), revar=set())
+            params = [""]
+            pp = [self.pat("opat", tg, max(d, 1), pfs)]
+            defaults = [self.objlit(max(d, 1) - 1, pfs) if r.random() < 0.4 else N("none")]
+        elif params and r.random() < 0.35:
             # default value expressions live in the parameter scope: they see the parameters (earlier ones initialised) and the outer scope
             dfs = dict(inner, declared=set(params), revar=set())
             for i in range(len(params)):
                 if r.random() < 0.7:
                     defaults[i] = self.dexpr(max(d, 1), dfs, params)
         body = self.stmts(d, inner, top=True)
-        strict = 1 if (r.random() < 0.15 and all(x["t"] == "none" for x in defaults)) else 0
-        return N("fdecl" if decl_name else "fn", x=name, kind=kind, p=params, d=defaults, s=strict, k=body)
+        if kind == "named" and r.random() < 0.3:
+            # strict code nested in the (possibly sloppy) function assigns to the function's own name, in statement position
+            asg = r.choice([N("assign", x=name, k=[N("num", n=r.randint(0, 3))]), N("addassign", x=name, k=[N("num", n=1)]), N("postinc", x=name)])
+            iife = N("fn", x="", kind="func", p=[], d=[], pp=[], s=1, k=[N("expr", k=[asg]), N("expr", k=[N("log", k=[N("num", n=3)])])])
+            body.insert(r.randint(0, len(body)), N("expr", k=[N("call", k=[iife])]))
+        strict = 1 if (r.random() < (0.35 if fs.get("ownnames") else 0.15) and all(x["t"] == "none" for x in defaults + pp)) else 0
+        return N("fdecl" if decl_name else "fn", x=name, kind=kind, p=params, d=defaults, pp=pp, s=strict, k=body)
 
     def dexpr(self, d, fs, params):
         """a default value: a number, another parameter, or a closure over the parameter scope"""
@@ -128,7 +188,7 @@ class Gen:
             x = r.choice(params + VARS[:2])
             body = [N("return", k=[N("log", k=[N("ref", x=x)])])] if r.random() < 0.5 else \
                    [N("expr", k=[N("addassign", x=x, k=[N("num", n=1)])]), N("return", k=[N("ref", x=x)])]
-            return N("fn", x="", kind=r.choice(["arrow", "func"]), p=[], d=[], s=0, k=body)
+            return N("fn", x="", kind=r.choice(["arrow", "func"]), p=[], d=[], pp=[], s=0, k=body)
         return N("log", k=[N("ref", x=r.choice(params + VARS[:2]))])
 
     def stmts(self, d, fs, top=False, maxn=4):
@@ -164,6 +224,10 @@ class Gen:
             ch += ["break"]
         if fs.get("inloop"):
             ch += ["continue"]
+        if fs.get("ownnames") and r.random() < 0.12:
+            # an assignment, in statement position, to the own name of an enclosing named function expression
+            x = r.choice(fs["ownnames"])
+            return N("expr", k=[r.choice([N("assign", x=x, k=[N("num", n=r.randint(0, 3))]), N("addassign", x=x, k=[N("num", n=1)]), N("postinc", x=x)])])
         c = r.choice(ch)
         if d > 0 and r.random() < 0.04:
             c = "throw"
@@ -171,6 +235,22 @@ class Gen:
             kind = r.choice(["var", "let", "let", "const"])
             if kind != "var" and not blocktop:
                 kind = "var"
+            if d > 0 and r.random() < 0.25:
+                n1, n2 = self.fresh(fs, VARS + FUNS), None
+                if n1 is not None:
+                    fs["declared"].add(n1)
+                    n2 = self.fresh(fs, VARS + FUNS) if r.random() < 0.6 else None
+                    if n2 is not None:
+                        fs["declared"].add(n2)
+                    tg = [n for n in (n1, n2) if n]
+                    if kind == "var":
+                        fs.setdefault("revar", set()).update(tg)
+                    if r.random() < 0.6:
+                        node = N(kind + "p", pat=self.pat("opat", tg, d - 1, fs), k=[self.objlit(d - 1, fs) if r.random() < 0.7 else self.expr(d - 1, fs)])
+                    else:
+                        node = N(kind + "p", pat=self.pat("apat", tg, d - 1, fs), k=[N("arr", k=[self.expr(d - 1, fs) for _ in range(r.randint(0, 3))])])
+                    fs.setdefault("inited", []).extend(tg)
+                    return node
             nm = self.fresh(fs, VARS + FUNS)
             if kind == "var" and fs.get("revar") and r.random() < 0.3:
                 nm = r.choice(sorted(fs["revar"]))           # var over a parameter / an earlier var / a function declaration
@@ -202,7 +282,7 @@ class Gen:
             body = self.block(d - 1, fs2)
             if r.random() < 0.6:
                 body["k"].insert(r.randint(0, len(body["k"])), N("expr", k=[N("assign", x=r.choice(FUNS + ["y"]), k=[self.capt(nm) if kind != 2 else
-                                 N("fn", x="", kind="arrow", p=[], d=[], s=0, k=[N("return", k=[N("log", k=[N("ref", x=nm)])])])])]))
+                                 N("fn", x="", kind="arrow", p=[], d=[], pp=[], s=0, k=[N("return", k=[N("log", k=[N("ref", x=nm)])])])])]))
             return N("forof", x=nm, n=kind, k=[N("arr", k=elems), body])
         if c == "evalcode":
             fs2 = dict(fs, inloop=False, inswitch=False, noreturn=True)
@@ -261,12 +341,12 @@ class Gen:
             body = [N("expr", k=[N("addassign", x=nm, k=[N("num", n=1)])]), N("return", k=[N("ref", x=nm)])]
         else:
             body = [N("return", k=[N("log", k=[N("ref", x=nm)])])]
-        return N("fn", x="", kind=r.choice(["arrow", "func"]), p=[], d=[], s=0, k=body)
+        return N("fn", x="", kind=r.choice(["arrow", "func"]), p=[], d=[], pp=[], s=0, k=body)
 
 
 def guard(stmt):
     """try { stmt } catch (e) { LOG(e) }: an exception does not end the program (declarations are not wrapped: they would become block-scoped)"""
-    if stmt["t"] in ("var", "let", "const", "fdecl", "return"):
+    if stmt["t"] in ("var", "let", "const", "fdecl", "return", "varp", "letp", "constp"):
         return stmt
     return N("try", x="e", k=[N("block", k=[stmt]), N("block", k=[N("expr", k=[N("log", k=[N("ref", x="e")])])])])
 
@@ -332,6 +412,18 @@ def pe(e, o):
         return "(%s, %s)" % (pe(e["k"][0], o), pe(e["k"][1], o))
     if t == "call":
         return "(%s)(%s)" % (pe(e["k"][0], o), ", ".join(pe(a, o) for a in e["k"][1:]))
+    if t == "objlit":
+        parts = []
+        for pr in e["k"]:
+            if pr["kind"] == "get":
+                parts.append("get %s() {%s}" % (pr["x"], fbody(pr["k"][0], o, 0)))
+            else:
+                parts.append("%s: %s" % (pr["x"], pe(pr["k"][0], o)))
+        return "({%s})" % ", ".join(parts)
+    if t == "mget":
+        return "(%s).%s" % (pe(e["k"][0], o), e["x"])
+    if t == "passign":
+        return "(%s = %s)" % (ppat(e["pat"], o), pe(e["k"][0], o))
     if t == "logassign":
         return "(%s %s %s)" % (e["x"], {"or": "||=", "and": "&&=", "nullish": "??="}[e["op"]], pe(e["k"][0], o))
     if t == "incdec":
@@ -356,9 +448,20 @@ def pe(e, o):
     raise AssertionError(t)
 
 
+def ppat(pat, o):
+    if pat["t"] == "opat":
+        return "{%s}" % ", ".join("%s: %s%s" % (el["key"], el["x"], (" = " + pe(el["k"][0], o)) if el["k"] else "") for el in pat["k"])
+    return "[%s]" % ", ".join("%s%s" % (el["x"], (" = " + pe(el["k"][0], o)) if el["k"] else "") for el in pat["k"])
+
+
 def params(fn, o):
     d = fn.get("d") or []
-    return ", ".join(p + (" = " + pe(d[i], o) if i < len(d) and d[i]["t"] != "none" else "") for i, p in enumerate(fn["p"]))
+    pp = fn.get("pp") or []
+    out = []
+    for i, p in enumerate(fn["p"]):
+        tgt = ppat(pp[i], o) if i < len(pp) and pp[i]["t"] != "none" else p
+        out.append(tgt + (" = " + pe(d[i], o) if i < len(d) and d[i]["t"] != "none" else ""))
+    return ", ".join(out)
 
 
 def fbody(fn, o, ind, strict=None):
@@ -381,6 +484,9 @@ def ps(stmts, o, ind):
             out.append(p + ("K(%s);" if o.get("exprpos") else "%s;") % pe(s["k"][0], o))
         elif t in ("var", "let", "const"):
             out.append(p + "%s %s%s;" % (t, s["x"], (" = " + pe(s["k"][0], o)) if s["k"] else ""))
+        elif t in ("varp", "letp", "constp"):
+            rhs = "[%s]" % ", ".join(pe(x, o) for x in s["k"][0]["k"]) if s["pat"]["t"] == "apat" else pe(s["k"][0], o)
+            out.append(p + "%s %s = %s;" % (t[:-1], ppat(s["pat"], o), rhs))
         elif t == "fdecl":
             out.append(p + "function %s(%s) {%s}" % (s["x"], params(s, o), fbody(s, o, ind)))
         elif t == "block":
@@ -456,7 +562,7 @@ def top_eval_vars(stmts):
 def has_var(stmts):
     for s in stmts:
         t = s["t"]
-        if t == "var" or (t in ("for", "forof") and s["n"] == 1):
+        if t in ("var", "varp") or (t in ("for", "forof") and s["n"] == 1):
             return True
         if t in ("block",) and has_var(s["k"]):
             return True
